@@ -47,60 +47,108 @@ def _call_key(c):
     return json.dumps(c, sort_keys=True)
 
 
+def _run_group(harness, init, hist, cands, listeners):
+    """execute every candidate call from the state reached by init+hist; returns the reset record
+    and the call records (pre index filled in by the caller) or raises HarnessError"""
+    reg = harness.build(init + hist, listeners)
+    s0 = harness.project(reg)
+    m0 = harness.project_mirror(reg) if reg.mirror else None
+    head = {"t": "reset", "h": hist, "state": s0}
+    if m0 is not None:
+        head["mirror"] = m0
+    recs = []
+    errors = []
+    for c in sorted(cands, key=_call_key):
+        if reg.mirror:
+            reg.mirror.begin_call()
+        try:
+            out, exc = harness.execute(reg, c)
+        except harness.HarnessError:
+            recs.append(None)
+            continue
+        s1 = harness.project(reg)
+        same = (s1 == s0)
+        rec = {"t": "call", "call": c, "out": out, "exc": exc, "same": same}
+        if not same:
+            rec["state"] = s1
+        msame = True
+        if reg.mirror:
+            m1 = harness.project_mirror(reg)
+            msame = (m1 == m0)
+            rec["msame"] = msame
+            rec["ann"] = list(reg.mirror.ann)
+            if not msame:
+                rec["mirror"] = m1
+        recs.append(rec)
+        if not (same and msame):
+            reg = harness.build(init + hist, listeners)
+            if harness.project(reg) != s0:
+                errors.append("rebuild of %r is not deterministic" % (hist,))
+    return head, recs, errors
+
+
 def replay_slice(args):
     """worker: replay a slice of groups, write one NDJSON shard.  Returns statistics."""
-    idx, init, groups, path, lookup = args
+    idx, init, groups, path, lookup, listeners = args
     import harness
     harness.LOOKUP_VALUES = list(lookup)
     st = {"groups": 0, "calls": 0, "ok": 0, "refused": 0, "changed_refused": 0, "unbuildable": 0,
-          "exc": {}, "nontrivial_refused": set(), "harness_errors": []}
+          "exc": {}, "nontrivial_refused": set(), "harness_errors": [], "announcements": 0,
+          "transparency_compared": 0}
     n = 0
     with open(path, "w") as f:
-        for hist, cands in groups:
+        for gi, (hist, cands) in enumerate(groups):
             try:
-                reg = harness.build(init + hist)
-                s0 = harness.project(reg)
+                head, recs, errs = _run_group(harness, init, hist, cands, listeners)
             except harness.HarnessError as e:
                 st["harness_errors"].append("build %r: %s" % (hist, e))
                 continue
+            st["harness_errors"].extend(errs)
+            others = []
+            if listeners and gi % 4 == 0:     # listener configurations: same behaviour under "", AB, BA
+                for cfg in ("", "AB", "BA"):
+                    try:
+                        others.append(_run_group(harness, init, hist, cands, cfg)[1])
+                    except harness.HarnessError:
+                        pass
             n += 1
             base = n
-            f.write(json.dumps({"t": "reset", "h": hist, "state": s0}, separators=(",", ":")) + "\n")
+            f.write(json.dumps(head, separators=(",", ":")) + "\n")
             st["groups"] += 1
-            s0_key = json.dumps(s0, sort_keys=True)
-            for c in sorted(cands, key=_call_key):
-                try:
-                    out, exc = harness.execute(reg, c)
-                except harness.HarnessError:
+            s0_key = json.dumps(head["state"], sort_keys=True)
+            for ci, rec in enumerate(recs):
+                if rec is None:
                     st["unbuildable"] += 1
                     continue
-                s1 = harness.project(reg)
-                same = (s1 == s0)
-                rec = {"t": "call", "pre": base, "call": c, "out": out, "exc": exc, "same": same}
-                if not same:
-                    rec["state"] = s1
+                rec["pre"] = base
+                if others:
+                    agree = True
+                    for o in others:
+                        r2 = o[ci] if ci < len(o) else None
+                        if r2 is None or r2["out"] != rec["out"] or r2["same"] != rec["same"] or \
+                                r2.get("state") != rec.get("state"):
+                            agree = False
+                    rec["agree"] = agree
+                    st["transparency_compared"] += 1
                 n += 1
                 f.write(json.dumps(rec, separators=(",", ":")) + "\n")
                 st["calls"] += 1
-                st[out] += 1
-                if out == "refused":
-                    st["exc"][exc] = st["exc"].get(exc, 0) + 1
-                    st["nontrivial_refused"].add(hash((s0_key, _call_key(c))))
-                    if not same:
+                st[rec["out"]] += 1
+                st["announcements"] += len(rec.get("ann", []))
+                if rec["out"] == "refused":
+                    st["exc"][rec["exc"]] = st["exc"].get(rec["exc"], 0) + 1
+                    st["nontrivial_refused"].add(hash((s0_key, _call_key(rec["call"]))))
+                    if not rec["same"]:
                         st["changed_refused"] += 1
-                if not same:
-                    reg = harness.build(init + hist)
-                    if harness.project(reg) != s0:
-                        st["harness_errors"].append("rebuild of %r is not deterministic" % (hist,))
     st["records"] = n
     st["nontrivial_refused"] = len(st["nontrivial_refused"])
     return st
 
 
-def replay(init, groups, outdir, nshards=None, lookup=()):
+def replay(init, groups, outdir, nshards=None, lookup=(), listeners=""):
     nshards = nshards or NPROC
     os.makedirs(outdir, exist_ok=True)
-    slices = [(i, init, groups[i::nshards], os.path.join(outdir, "shard%02d.ndjson" % i), list(lookup))
+    slices = [(i, init, groups[i::nshards], os.path.join(outdir, "shard%02d.ndjson" % i), list(lookup), listeners)
               for i in range(nshards)]
     slices = [s for s in slices if s[2]]
     with mp.Pool(min(NPROC, len(slices))) as pool:
@@ -146,12 +194,13 @@ def read_record(path, k):
 
 if __name__ == "__main__":
     scope, depth = sys.argv[1], int(sys.argv[2])
+    LISTEN = sys.argv[3] if len(sys.argv) > 3 else ""
     t0 = time.time()
     res, init, groups = generate(scope, depth)
     print("generate", res["wall_s"], "s states", res["states"], "distinct", res["distinct"], "groups",
           len(groups), "ok", res["ok"], res["errors"][:5])
     out = tlcrun.scratch("irflow-")
-    shards, stats = replay(init, groups, out, lookup=res["lookup"])
+    shards, stats = replay(init, groups, out, lookup=res["lookup"], listeners=LISTEN)
     tot = {k: sum(s[k] for s in stats) for k in ("groups", "calls", "ok", "refused", "changed_refused",
                                                    "unbuildable", "records", "nontrivial_refused")}
     print("replay", round(time.time() - t0, 1), tot, [s["harness_errors"][:2] for s in stats if s["harness_errors"]][:3])
